@@ -94,6 +94,8 @@ def run(pid, tier):
         results += common.pmap(rustwl.inh_worker, _tasks(rc, "dev", p, ["C01"]))
         tot = rustwl.merge(check, results, pid)
         extra["build_flavours"] = list(flavours)
+        if tier == "thorough":
+            extra.update(rustwl.miri_tier(check, "C01", 300))
         extra["median_op_latency_ns"] = sorted(tot["median_ns"])[len(tot["median_ns"]) // 2] if tot["median_ns"] else None
         extra["max_op_latency_ns"] = tot["max_ns"]
     elif pid in ("C02", "C03", "C05"):
@@ -130,6 +132,8 @@ def run(pid, tier):
         results = common.pmap(rustwl.dec_worker, _tasks(rc, "dev", p, ["C18"]))
         results += common.pmap(rustwl.enc_worker, _tasks(rc, "dev", p, ["C18"], bad=True))
         tot = rustwl.merge(check, results, pid)
+        if tier == "thorough":
+            extra.update(rustwl.miri_tier(check, "C18", 200))
     elif pid == "C17":
         rc = rustwl.prepare(check, tier, flavours=("dev",))
         results = common.pmap(rustwl.enc_worker, _tasks(rc, "dev", p, ["C17"]))
